@@ -28,11 +28,18 @@ package common
 //@     forall i int :: {tx.Outputs[a].Keys[i]} 0 <= i && i < len(tx.Outputs[a].Keys) ==> tx.Outputs[a].Keys[i] != nil && !fresh(tx.Outputs[a].Keys[i])
 
 //@ func (tx *Transaction) validateOutputs
-//@   property C04, C05
+//@   property C04, C05, C01
 //@   requires OutsOK(tx) && !isnil(store)
 //@   requires tx != nil && store != nil && OutputsOK(tx) && OutKeysOK(tx) && OutKeysOld(tx) -- C05 sweep (see zz_contracts_c05_verif.go)
 //@   modifies nothing
 //@   ensures [no-repeat] err == nil ==> forall a, b, i, j int :: 0 <= a && a < len(tx.Outputs) && 0 <= b && b < len(tx.Outputs) && 0 <= i && i < len(tx.Outputs[a].Keys) && 0 <= j && j < len(tx.Outputs[b].Keys) && (a != b || i != j) ==> *tx.Outputs[a].Keys[i] != *tx.Outputs[b].Keys[j]
+//@   -- C01: every output amount is positive and the outputs add up to exactly the input amount
+//@   ensures [c01-positive] @C01 err == nil ==> forall a int :: 0 <= a && a < len(tx.Outputs) ==> val(tx.Outputs[a].Amount) > 0
+//@   ensures [c01-equal] @C01 err == nil ==> SumOut(tx.Outputs, len(tx.Outputs)) == val(inputAmount)
+//@   loop 0 invariant [c01-sum] @C01 val(outputAmount) == SumOut(tx.Outputs, rangeindex + 1)
+//@   loop 0 invariant [c01-pos] @C01 forall a int :: 0 <= a && a <= rangeindex ==> val(tx.Outputs[a].Amount) > 0
+//@   loop 1 invariant [c01-sum] @C01 val(outputAmount_0) == SumOut(tx.Outputs, rangeindex_0 + 1) -- outputAmount_0: the phi of the enclosing loop (the plain name is the initial definition)
+//@   loop 1 invariant [c01-pos] @C01 forall a int :: 0 <= a && a <= rangeindex_0 + 1 ==> val(tx.Outputs[a].Amount) > 0
 //@   loop 0 invariant [amount] val(outputAmount) >= 0
 //@   loop 0 invariant [c05] OutKeysOK(tx) && fresh(ghostKeys)
 //@   loop 0 invariant [stable] forall a, i int :: {tx.Outputs[a].Keys[i]} 0 <= a && a < len(tx.Outputs) && 0 <= i && i < len(tx.Outputs[a].Keys) ==> tx.Outputs[a].Keys[i] == old(tx.Outputs[a].Keys[i]) && *tx.Outputs[a].Keys[i] == old(*tx.Outputs[a].Keys[i])
